@@ -21,6 +21,11 @@ def rule_contracts():
                             "Evaluator.conditionalor(x || y)", lambda S, r: or_spec(desc(S.x), desc(S.y), desc(r)), cover=False))
     cs.append(rule_contract("conditionaland", ("conditionaland", [STUB("x"), STUB("y")]), [("x", OUTCOMES), ("y", OUTCOMES)],
                             "Evaluator.conditionaland(x && y)", lambda S, r: and_spec(desc(S.x), desc(S.y), desc(r)), cover=False))
+    # chains: the grammar nests x && y && z to the left; a deciding operand anywhere decides, whatever stands before it
+    for rule, kind in (("conditionaland", "and"), ("conditionalor", "or")):
+        cs.append(rule_contract(rule, (rule, [(rule, [STUB("x"), STUB("y")]), STUB("z")]), [("x", OUTCOMES), ("y", OUTCOMES), ("z", OUTCOMES)],
+                                f"Evaluator.{rule}(x {'&&' if kind == 'and' else '||'} y {'&&' if kind == 'and' else '||'} z)",
+                                (lambda kind: lambda S, r: chain_spec(kind, [desc(S.x), desc(S.y), desc(S.z)], desc(r)))(kind), cover=False, native_ok=False))
     cs.append(rule_contract("unary", ("unary", [("unary_not", []), STUB("x")]), [("x", OUTCOMES)],
                             "Evaluator.unary(!x)", lambda S, r: not_spec(desc(S.x), desc(r)), cover=False))
 
